@@ -95,6 +95,16 @@ func g04Init() {
 	} {
 		add(g04Vec{kind: "markup", name: "m", value: m})
 	}
+	// the same keywords followed by every other white-space byte, glued to what
+	// follows, and the down-level-revealed conditional spelling
+	for _, ws := range []string{"\t", "\n", "\r", "\f", "\v", "\r\n", "  ", "/", "%", "["} {
+		for _, m := range []string{"<!ENTITY" + ws + "x SYSTEM \"y\">", "<?import" + ws + "namespace=t>", "<!DOCTYPE" + ws + "html>", "<?xml" + ws + "version=\"1.0\"?>", "<!--[if" + ws + "IE]>x<![endif]-->"} {
+			add(g04Vec{kind: "markup", name: "m", value: m})
+		}
+	}
+	for _, m := range []string{"<![if IE]>x<![endif]>", "<![IF !IE]>", "<!--[if IE]>a-->b<![endif]-->", "<!entityref>", "<?important>", "<!doctypes>", "<?xmlx>", "<!--[iframe]-->"} {
+		add(g04Vec{kind: "markup", name: "m", value: m})
+	}
 }
 
 func g04All() []g04Vec { g04Once.Do(g04Init); return g04Vecs }
@@ -239,9 +249,22 @@ func encodeSchemeW(s string, enc, inter uint64, mask uint64, lfOK bool, runLen i
 			}
 		}
 		if inter>>(uint(i)&63)&1 == 1 && i > 0 {
-			if !lfOK || inter>>(uint(i+17)&63)&1 == 1 {
+			// an ignorable character between two scheme letters: raw, or written
+			// as a numeric character reference
+			switch k := inter >> (uint(i*3+5) & 63) & 7; {
+			case k == 4:
+				b.WriteString("&#0;")
+			case k == 5:
+				b.WriteString("&#x00;")
+			case k == 6 && lfOK:
+				b.WriteString("&#10;")
+			case k == 7 && lfOK:
+				b.WriteString("&#xA;")
+			case k == 6:
+				b.WriteString("&#000;")
+			case !lfOK || inter>>(uint(i+17)&63)&1 == 1:
 				b.WriteByte(0)
-			} else {
+			default:
 				b.WriteByte('\n')
 			}
 		}
@@ -531,7 +554,7 @@ func g04SweepSize() uint64 {
 func c04() *core.Check {
 	return &core.Check{
 		ID: "C04",
-		Rule: "members of the fixed vector grammar G_xss built from the live lists (every black tag, every on* event, style/filter, every URL attribute x scheme, xmlns/xlink/datasrc/dataformatas, attributename indirection, DOCTYPE/ENTITY/<?import/<?xml/IE-conditional/back-tick-comment markup) behind every breakout prefix (incl. complete constructs and polyglot openers such as <!--\"> whose unquoted reading is swallowed by an unterminated comment, <% block or CDATA section): an axis-wise sweep (every vector x every prefix, separator, quoting, case mask, tag end, NUL position) followed by random products incl. per-byte character-reference encodings, leading junk and NUL/LF inside schemes, NUL bytes between '<' and a tag name, values whose opening quote is never closed, and one in twelve with one obfuscation (separator run, NUL/LF run inside the scheme, leading junk, white space around '=', NUL run inside the name) stretched to a threshold length between 63 and 65537 bytes. Oracle: IsXSS = true. " +
+		Rule: "members of the fixed vector grammar G_xss built from the live lists (every black tag, every on* event, style/filter, every URL attribute x scheme, xmlns/xlink/datasrc/dataformatas, attributename indirection, DOCTYPE/ENTITY/<?import/<?xml/IE-conditional/back-tick-comment markup, the keywords also followed by every other white-space byte or by / % [, the <![if ..]> spelling) behind every breakout prefix (incl. complete constructs and polyglot openers such as <!--\"> whose unquoted reading is swallowed by an unterminated comment, <% block or CDATA section): an axis-wise sweep (every vector x every prefix, separator, quoting, case mask, tag end, NUL position) followed by random products incl. per-byte character-reference encodings, leading junk and NUL/LF inside schemes, NUL bytes between '<' and a tag name, values whose opening quote is never closed, and one in twelve with one obfuscation (separator run, NUL/LF run inside the scheme, leading junk, white space around '=', NUL run inside the name) stretched to a threshold length between 63 and 65537 bytes. Oracle: IsXSS = true. " +
 			"Non-trivial = every member; distinct by string.",
 		Plan: func(tier string, seed uint64) []core.Unit {
 			total := g04SweepSize()
